@@ -8,7 +8,7 @@ import toasty.pipeline.local_io as tlio
 from vlib import chx
 
 HARNESS = os.path.join(os.path.dirname(__file__), "chx_C18.py")
-QUICK = ([("chk_publish_crash_n%d" % n, 150) for n in (1, 2, 3, 4)] + [("chk_publish_index_last", 90),
+QUICK = ([("chk_publish_crash_n%d" % n, 150) for n in (1, 2, 3, 4)] + [("chk_publish_index_last", 90), ("chk_publish_lookalike_names", 400),
          ("chk_publish_two_images_2_2", 150), ("chk_refresh_skip_rule", 40)])
 THOROUGH = QUICK + [("chk_publish_crash_n%d" % n, 1200) for n in (5, 6, 7)] + [
     ("chk_publish_two_images_3_2", 900), ("chk_publish_two_images_2_3", 900), ("chk_publish_two_images_3_3", 1200)]
@@ -24,6 +24,6 @@ def check(run):
                "a crash in the middle of a transfer leaves that one file partial (open(...,'wb') truncates, copy incomplete); other store entries are unaffected",
                "print replaced by a no-op")
     run.outside("AzurePipelineIo (network back end) is not executed; only the local store's put_item/check_exists",
-                "file names other than index.wtml are interchangeable (f0.png ...)")
+                "file names other than index.wtml are interchangeable (f0.png ...), except one look-alike (index_rel.wtml / Index.wtml.bak) at a symbolic position")
     run.composition.append("crash-safety across runs: one run from any post-crash state re-transfers every file of the still-approved image (Appendix A-9); machine-checked for one crash + one re-run")
     chx.run_conditions(run, HARNESS, THOROUGH if run.tier == "thorough" else QUICK)
